@@ -10,7 +10,6 @@
 package ocsp
 
 import (
-	"context"
 	"crypto/x509"
 	"net/http"
 
@@ -23,7 +22,7 @@ func H_C04_execute() {
 	issuer := rt.Havoc[*x509.Certificate]("issuer")
 	server := rt.AtomString("server")
 	opts := CertCheckStatusOptions{HTTPClient: &http.Client{}, SigningTime: rt.Time("st")}
-	resp, err := executeOCSPCheck(context.Background(), cert, issuer, server, opts)
+	resp, err := executeOCSPCheck(rt.EnvContext{Tag: "caller"}, cert, issuer, server, opts)
 	if err != nil {
 		rt.Assert(resp == nil, "C04.L1a.err.noresp")
 		// the error class decides the verdict later: it must never be one of the three "status" errors
